@@ -4,6 +4,7 @@ import (
 	"crypto/sha256"
 	"encoding/hex"
 	"fmt"
+	"os"
 	"path/filepath"
 	"sort"
 	"strings"
@@ -49,8 +50,30 @@ func diffFiles(a, b map[string]string) string {
 	return strings.Join(d, ", ")
 }
 
+// exampleSeeds reads the grammars shipped with the repository under test (real-world inputs). They import packages
+// at their repository paths, so they serve the byte-identity checks (C11, C13, C19), not the compile step.
+func exampleSeeds(tier string) []gram.Seed {
+	fs, _ := filepath.Glob(filepath.Join(gen.Repo, "example", "*", "*.bnf"))
+	fs = append(fs, filepath.Join(gen.Repo, "internal", "test", "t1", "t1.bnf"))
+	sort.Strings(fs)
+	var out []gram.Seed
+	for i, f := range fs {
+		b, err := os.ReadFile(f)
+		if err != nil {
+			continue
+		}
+		if _, err := gram.Lexemes(string(b)); err != nil {
+			continue // a grammar the harness's own tokenizer does not handle is not used as a seed
+		}
+		if tier == "thorough" || i%4 == 1 {
+			out = append(out, gram.Seed{Name: "example-" + filepath.Base(filepath.Dir(f)), Text: string(b)})
+		}
+	}
+	return out
+}
+
 func allSeeds(tier string) []gram.Seed {
-	seeds := gram.Seeds()
+	seeds := append(gram.Seeds(), exampleSeeds(tier)...)
 	if tier == "thorough" {
 		for i, h := range gram.HostileSeeds() {
 			if i%4 == 0 {
